@@ -37,7 +37,9 @@ func GetFwGUIDTable(firmware []byte) ([]byte, error) {
 
 	firmwareGUIDentry := firmware[len(firmware)-guidBlockOffsetFromEnd:]
 	guidEntry := new(abi.FwGUIDEntry)
-	guidEntry.PopulateFromBytes(firmwareGUIDentry)
+	if err := guidEntry.PopulateFromBytes(firmwareGUIDentry); err != nil {
+		return nil, err
+	}
 
 	guidBlockGUID := uuid.MustParse(abi.FwGUIDTableFooterGUID)
 
@@ -83,7 +85,9 @@ func GetFwGUIDToBlockMap(firmware []byte) (map[string][]byte, error) {
 
 		entryPos := guidTableUnprocessedLength - abi.SizeofFwGUIDEntry
 		guidEntry := new(abi.FwGUIDEntry)
-		guidEntry.PopulateFromBytes(guidTable[entryPos : entryPos+abi.SizeofFwGUIDEntry])
+		if err := guidEntry.PopulateFromBytes(guidTable[entryPos : entryPos+abi.SizeofFwGUIDEntry]); err != nil {
+			return nil, err
+		}
 		guidEntrySize := int(guidEntry.Size)
 
 		// Error out in case the current guid block size overflows the table
